@@ -16,14 +16,15 @@ Rec == ndJsonDeserialize(IOEnv.TRACE)
 VARIABLES l,          \* next line
           run,        \* index of the current run (number of resets seen)
           skip,       \* the current run was rejected: ignore lines up to the next reset
-          sub, snv, scl, del, ready, answered,
+          sub, snv, scl, del, ready, answered, bnd,
+          maybe,      \* ids of chunks whose send() returned the error of the send callback: submitted or not, as the code pleases
           last,       \* last observation [st, nt, busy, idle] or the empty record
           phase,      \* "run" | "fair"
           v7,         \* protocol variant of the current run (reserved token values differ)
           seen,       \* rules already reported for the current run
           refused,    \* a send was refused (TooLongData) earlier in the current run
           bad         \* sequence of [run, line, why]
-tvars == <<l, run, skip, sub, snv, scl, del, ready, answered, last, phase, v7, seen, refused, bad>>
+tvars == <<l, run, skip, sub, snv, scl, del, ready, answered, bnd, maybe, last, phase, v7, seen, refused, bad>>
 
 Ch == INSTANCE Channel
 E2 == <<"c", "s">>
@@ -36,12 +37,13 @@ Init ==
   /\ l = 1 /\ run = 0 /\ skip = FALSE /\ seen = {}
   /\ sub = [e \in Ch!CE |-> <<>>] /\ snv = [e \in Ch!CE |-> {}] /\ scl = [e \in Ch!CE |-> {}]
   /\ del = [e \in Ch!CE |-> <<>>] /\ ready = 0 /\ answered = FALSE
+  /\ bnd = [e \in Ch!CE |-> <<>>] /\ maybe = {}
   /\ last = NoObs /\ phase = "run" /\ v7 = FALSE /\ refused = FALSE /\ bad = <<>>
 
 Reset(ev) ==
   /\ run' = run + 1 /\ skip' = FALSE
   /\ sub' = [e \in Ch!CE |-> <<>>] /\ snv' = [e \in Ch!CE |-> {}] /\ scl' = [e \in Ch!CE |-> {}]
-  /\ del' = [e \in Ch!CE |-> <<>>]
+  /\ del' = [e \in Ch!CE |-> <<>>] /\ bnd' = [e \in Ch!CE |-> <<>>] /\ maybe' = {}
   /\ ready' = (IF ev.online THEN 1 ELSE 0) /\ answered' = ev.online
   /\ last' = NoObs /\ phase' = "run" /\ v7' = ev.v7 /\ seen' = {} /\ refused' = FALSE
   /\ UNCHANGED bad
@@ -49,7 +51,7 @@ Reset(ev) ==
 Reject(whys) ==
   /\ bad' = bad \o [i \in 1..Len(whys) |-> [run |-> run, line |-> l, why |-> whys[i]]]
   /\ skip' = TRUE
-  /\ UNCHANGED <<run, sub, snv, scl, del, ready, answered, last, phase, v7, seen, refused>>
+  /\ UNCHANGED <<run, sub, snv, scl, del, ready, answered, bnd, maybe, last, phase, v7, seen, refused>>
 
 \* endpoint whose application receives the events of this step
 Target(ev) == IF ev.a \in {"deliver", "dup"} THEN Ch!CPeer(ev.act.from)
@@ -59,13 +61,22 @@ NReady(evs) == Len(SelectSeq(evs, LAMBDA x : x.e = "ready"))
 \* every rule the step breaks (a run is not abandoned at the first one: a later, different violation of another
 \* property must still be seen); each reason is recorded once per run
 W(id, why) == {[id |-> id, why |-> why]}
-Whys(ev, t, sub1, snv1, scl1, del1, ready1, ans1, o) ==
-  (IF ev.res \notin {"ok", "TooLongData"} THEN W("return", "C04/C02: call did not return normally: " \o ev.detail) ELSE {})
+\* chunks whose submission is in doubt are left out of the order check on both sides
+Sure(sb, mb) == [e \in Ch!CE |-> SelectSeq(sb[e], LAMBDA id : id \notin mb)]
+SureDel(dl, mb) == [e \in Ch!CE |-> SelectSeq(dl[e], LAMBDA x : ~(x.e = "chunk" /\ x.v /\ x.id \in mb))]
+\* session boundaries in the filtered histories
+SureBnd(sb, dl, bd, mb) == [e \in Ch!CE |-> [j \in 1..Len(bd[e]) |->
+                               [s |-> Len(SelectSeq(SubSeq(sb[e], 1, bd[e][j].s), LAMBDA id : id \notin mb)),
+                                d |-> Len(SelectSeq(SubSeq(dl[e], 1, bd[e][j].d), LAMBDA x : ~(x.e = "chunk" /\ x.v /\ x.id \in mb)))]]]
+PrefixOk(sb, dl, bd, mb) == Ch!Prefix(Sure(sb, mb), SureDel(dl, mb), SureBnd(sb, dl, bd, mb))
+
+Whys(ev, t, sub1, snv1, scl1, del1, ready1, ans1, o, mb1) ==
+  (IF ev.res \notin {"ok", "TooLongData", "callback"} THEN W("return", "C04/C02: call did not return normally: " \o ev.detail) ELSE {})
   \cup (IF ev.malformed # <<>> THEN W("malformed", "C04: malformed datagram sent: " \o ev.malformed[1]) ELSE {})
-  \cup (IF ev.res = "TooLongData" /\ (ev.nouts # 0 \/ o # last) THEN W("refusal", "C04: a refused send changed the connection") ELSE {})
+  \cup (IF ev.a = "send" /\ ev.res = "TooLongData" /\ (ev.nouts # 0 \/ o # last) THEN W("refusal", "C04: a refused send changed the connection") ELSE {})
   \cup (IF ev.a = "forge" /\ (ev.evs # <<>> \/ ev.nouts # 0 \/ o # last) THEN W("forge", "C03: a datagram without the agreed token had an effect") ELSE {})
   \cup (IF ev.a \notin {"deliver", "dup", "forge"} /\ ev.evs # <<>> THEN W("nowhere", "C01: events out of nowhere") ELSE {})
-  \cup (IF ~Ch!Prefix(sub1, del1) THEN W("prefix", "C01: delivered vital chunks are not a prefix of the submitted ones") ELSE {})
+  \cup (IF ~PrefixOk(sub1, del1, bnd, mb1) THEN W("prefix", "C01: delivered vital chunks are not a prefix of the submitted ones") ELSE {})
   \cup (IF ~Ch!Genuine(snv1, scl1, del1) THEN W("genuine", "C01: a delivered non-vital chunk was never sent") ELSE {})
   \cup (IF ~Ch!ReadyOnce(ready1, ans1) THEN W("ready", "C01: ready more than once or before the acceptor answered") ELSE {})
   \cup (IF \E i \in 1..2 : o.busy[i] /\ o.nt[i] = -1 THEN W("deadline", "C02: work pending but no deadline reported") ELSE {})
@@ -73,7 +84,8 @@ Whys(ev, t, sub1, snv1, scl1, del1, ready1, ans1, o) ==
 
 Step(ev) ==
   LET t == Target(ev)
-      okSend == ev.a = "send" /\ ev.res = "ok"
+      okSend == ev.a = "send" /\ ev.res \in {"ok", "callback"}
+      mb1 == IF ev.a = "send" /\ ev.res = "callback" /\ ev.act.v THEN maybe \cup {ev.act.id} ELSE maybe
       sub1 == IF okSend /\ ev.act.v THEN [sub EXCEPT ![ev.act.e] = Append(@, ev.act.id)] ELSE sub
       snv1 == IF okSend /\ ~ev.act.v THEN [snv EXCEPT ![ev.act.e] = @ \cup {ev.act.id}] ELSE snv
       scl1 == IF ev.a = "connless" /\ ev.res = "ok" THEN [scl EXCEPT ![ev.act.e] = @ \cup {ev.act.id}] ELSE scl
@@ -81,33 +93,43 @@ Step(ev) ==
       ready1 == ready + NReady(ev.evs)
       ans1 == answered \/ ev.answered
       o == Obs(ev)
-      new == {w \in Whys(ev, t, sub1, snv1, scl1, del1, ready1, ans1, o) : w.id \notin seen}
+      new == {w \in Whys(ev, t, sub1, snv1, scl1, del1, ready1, ans1, o, mb1) : w.id \notin seen}
       newq == SetToSeq(new)
   IN /\ sub' = sub1 /\ snv' = snv1 /\ scl' = scl1 /\ del' = del1 /\ ready' = ready1 /\ answered' = ans1
-     /\ last' = o
+     /\ last' = o /\ maybe' = mb1 /\ UNCHANGED bnd
      /\ bad' = bad \o [i \in 1..Len(newq) |-> [run |-> run, line |-> l, why |-> newq[i].why]]
      /\ seen' = seen \cup {w.id : w \in new}
      /\ refused' = (refused \/ ev.res = "TooLongData")
      /\ UNCHANGED <<run, skip, phase, v7>>
 
+\* the application resets a closed connection: its histories are cut here
+CReset(ev) ==
+  LET e == ev.act.e IN
+  /\ bnd' = [bnd EXCEPT ![e] = Append(@, [s |-> Len(sub[e]), d |-> Len(del[e])])]
+  /\ ready' = IF e = "c" THEN 0 ELSE ready
+  /\ last' = Obs(ev)
+  /\ UNCHANGED <<run, skip, sub, snv, scl, del, answered, maybe, phase, v7, seen, refused, bad>>
+
 Quiescent ==
   \/ last.st[1] = "Unc"
   \/ \E i \in 1..2 : last.st[i] = "Disc"
   \/ /\ ready = 1
-     /\ \A e \in Ch!CE : Ch!ChVitalIds(del[Ch!CPeer(e)]) = sub[e] /\ last.idle[Idx(e)]
+     /\ Ch!AllDelivered(Sure(sub, maybe), SureDel(del, maybe), SureBnd(sub, del, bnd, maybe))
+     /\ \A e \in Ch!CE : last.idle[Idx(e)]
 
 Next ==
   /\ l <= Len(Rec)
   /\ l' = l + 1
   /\ LET ev == Rec[l] IN
      IF ev.a = "reset" THEN Reset(ev)
-     ELSE IF skip THEN UNCHANGED <<run, skip, sub, snv, scl, del, ready, answered, last, phase, v7, seen, refused, bad>>
-     ELSE IF ev.a = "fair" THEN phase' = "fair" /\ UNCHANGED <<run, skip, sub, snv, scl, del, ready, answered, last, v7, seen, refused, bad>>
-     ELSE IF ev.a = "end" THEN (IF Quiescent THEN UNCHANGED <<run, skip, sub, snv, scl, del, ready, answered, last, phase, v7, seen, refused, bad>>
+     ELSE IF skip THEN UNCHANGED <<run, skip, sub, snv, scl, del, ready, answered, bnd, maybe, last, phase, v7, seen, refused, bad>>
+     ELSE IF ev.a = "fair" THEN phase' = "fair" /\ UNCHANGED <<run, skip, sub, snv, scl, del, ready, answered, bnd, maybe, last, v7, seen, refused, bad>>
+     ELSE IF ev.a = "end" THEN (IF Quiescent THEN UNCHANGED <<run, skip, sub, snv, scl, del, ready, answered, bnd, maybe, last, phase, v7, seen, refused, bad>>
                                 ELSE Reject(<<"C02: not quiescent after the fair suffix">>
                                             \o (IF refused THEN <<"C04: after a refused send the connection no longer carries what is submitted (not usable)">> ELSE <<>>)))
      ELSE IF ev.res = "skipped"         \* a schedule step that does not apply to what the code really did: skipped
-          THEN UNCHANGED <<run, skip, sub, snv, scl, del, ready, answered, last, phase, v7, seen, refused, bad>>
+          THEN UNCHANGED <<run, skip, sub, snv, scl, del, ready, answered, bnd, maybe, last, phase, v7, seen, refused, bad>>
+     ELSE IF ev.a = "creset" THEN CReset(ev)
      ELSE Step(ev)
 
 TraceSpec == Init /\ [][Next]_tvars
